@@ -24,7 +24,7 @@ with atheris.instrument_imports(include=['bitcoin']):
     import bitcoin.messages
     import bitcoin.wallet
 assert os.path.abspath(bitcoin.__file__).startswith(REPO + os.sep), bitcoin.__file__
-from vlib.runner import Violation, digest, shorten  # noqa: E402
+from vlib.runner import Violation, digest, guarded, shorten  # noqa: E402
 
 mod = importlib.import_module('vlib.props.' + os.environ['FUZZ_PROP'])
 STATS = os.environ.get('FUZZ_STATS')
@@ -49,7 +49,7 @@ def one(data):
     if case is None:
         return
     try:
-        info = mod.check_case(case)
+        info = guarded(mod.check_case, case)        # library-frame exceptions outside the oracle's own calls are violations too
     except Violation as v:
         if v.key not in state['violations']:
             state['violations'][v.key] = {'message': v.message, 'case': case}
